@@ -603,7 +603,10 @@ fn handshake_tail(r: &mut Rng, res: &mut CaseResult) {
     let want_close = format!("ServerClosedConnection({},{:?})", code, text);
     let cut = r.usize(1, tail.len() - 1);
     let mut reactions: Vec<(String, String)> = Vec::new();
-    for mode in ["same chunk as OpenOk", "own chunk, same read pass", "cut inside, rest later", "after open returned"] {
+    for mode in ["same chunk as OpenOk", "own chunk, same read pass", "cut inside, rest later", "after open returned", "same chunk as OpenOk, then end of stream"] {
+        if mode == "same chunk as OpenOk, then end of stream" && kind != 2 {
+            continue;
+        }
         let mut reflex = Reflex::default();
         let mut first = open_ok_frame();
         let mut later: Vec<u8> = Vec::new();
@@ -612,6 +615,13 @@ fn handshake_tail(r: &mut Rng, res: &mut CaseResult) {
             "same chunk as OpenOk" => {
                 first.extend(&tail);
                 acts.push(Action::Send(first));
+            }
+            "same chunk as OpenOk, then end of stream" => {
+                // a broker that goes down right after accepting us: OpenOk, its Close, and
+                // the end of the stream, all in one read pass
+                first.extend(&tail);
+                acts.push(Action::Send(first));
+                acts.push(Action::End(if r.bool() { crate::mock::InEnd::Eof } else { crate::mock::InEnd::Err(std::io::ErrorKind::ConnectionReset) }));
             }
             "own chunk, same read pass" => {
                 acts.push(Action::Send(first));
